@@ -33,6 +33,9 @@ func checkC02Constructed(c c02ConCase) error {
 		stats.Class("refused/" + shortErr(fmt.Errorf("%s", r.skip)))
 		return nil
 	}
+	if r.corrupted() {
+		return finding("tbs-unstable-while-in-use", "the bytes handed to a signer / verifier changed while the key was still using them (another library operation ran in between)")
+	}
 	if len(r.libTBS) != len(r.refTBS) {
 		return finding("tbs-count", "library made %d signing calls, reference %d", len(r.libTBS), len(r.refTBS))
 	}
@@ -150,12 +153,40 @@ func checkC02Decoded(c wireCase) error {
 	var spies []*bridge.SpyVerifier
 	var vs []cose.Verifier
 	for _, s := range c.Spec.Sigs {
-		sv := &bridge.SpyVerifier{Alg: cose.Algorithm(s.Key.Alg)}
+		sv := &bridge.SpyVerifier{Alg: cose.Algorithm(s.Key.Alg), Reenter: reenterLibrary}
 		spies = append(spies, sv)
 		vs = append(vs, sv)
 	}
 	if err := m.verify(ext, vs...); err != nil {
 		return finding("spy-verify-error", "Verify with accepting spy verifiers failed: %v", err)
+	}
+	for i, sv := range spies {
+		if sv.Corrupted {
+			return finding("tbs-unstable-while-in-use", "the bytes handed to verifier %d changed while it was still using them (another library operation ran in between)", i)
+		}
+	}
+	// a COSE_Signature decoded on its own from the caller's buffer, which is then reused
+	if c.Spec.Kind == refcose.KSign {
+		for i := range c.Spec.Sigs {
+			buf := append([]byte{}, env.Sigs[i].Root.Raw()...)
+			var sg cose.Signature
+			if err := sg.UnmarshalCBOR(buf); err != nil {
+				return finding("rejected", "stand-alone COSE_Signature rejected: %v", err)
+			}
+			for j := range buf {
+				buf[j] ^= 0x5a
+			}
+			sv := &bridge.SpyVerifier{Alg: cose.Algorithm(c.Spec.Sigs[i].Key.Alg)}
+			bp, _ := m.sm.Headers.MarshalProtected()
+			if err := sg.Verify(sv, bp, c.Spec.Payload, ext); err != nil {
+				return finding("spy-verify-error", "Signature.Verify with an accepting spy failed: %v", err)
+			}
+			want := refcose.SigStructure(env.ProtContent(), env.Sigs[i].ProtContent(), ext, c.Spec.Payload)
+			if !bytes.Equal(sv.Last().Content, want) {
+				return finding("tbs-mismatch", "stand-alone decoded Signature %d (input buffer reused afterwards): ToBeSigned differs\n got=%x\nwant=%x", i, sv.Last().Content, want)
+			}
+			stats.Class("decoded/standalone-signature-buffer-reused")
+		}
 	}
 	noncanon := len(rc.DeterminismIssues(env.Root)) > 0
 	var ntParts [][]byte
@@ -265,6 +296,9 @@ type c02RawCase struct {
 	Payload  rc.Hex       `json:"payload"`
 	External rc.Hex       `json:"external"`
 	Alg      int64        `json:"alg"`
+	// ViaMessage: the signer layer is signed through SignMessage.Sign (body RawProtected on the message)
+	ViaMessage bool `json:"via_message,omitempty"`
+	MirrorMap  bool `json:"mirror_map,omitempty"`
 }
 
 func checkC02Raw(c c02RawCase) error {
@@ -288,7 +322,25 @@ func checkC02Raw(c c02RawCase) error {
 			return fmt.Errorf("bad case: %v", err)
 		}
 		s := &cose.Signature{Headers: cose.Headers{RawProtected: append([]byte{}, c.SigProt...), Protected: bridge.ToProtected(c.SigMap)}}
-		if err := s.Sign(rnd, spy, append([]byte{}, c.RawProt...), c.Payload, c.External); err != nil {
+		if c.ViaMessage {
+			// through SignMessage.Sign / Verify with caller-supplied raw body header (map mirrored or left empty)
+			sm := &cose.SignMessage{Headers: cose.Headers{RawProtected: append([]byte{}, c.RawProt...)}, Payload: c.Payload, Signatures: []*cose.Signature{s}}
+			if c.MirrorMap {
+				sm.Headers.Protected = bridge.ToProtected(c.Prot)
+			}
+			if err := sm.Sign(rnd, c.External, spy); err != nil {
+				stats.Class("refused/" + shortErr(err))
+				return nil
+			}
+			sv := &bridge.SpyVerifier{Alg: cose.Algorithm(c.Alg)}
+			if err := sm.Verify(c.External, sv); err != nil {
+				return finding("spy-verify-error", "SignMessage.Verify with an accepting spy failed: %v", err)
+			}
+			if !bytes.Equal(sv.Last().Content, spy.Last()) {
+				return finding("tbs-mismatch", "SignMessage with caller-supplied RawProtected: signer and verifier were handed different bytes\n sign=%x\nverify=%x", spy.Last(), sv.Last().Content)
+			}
+			stats.Class("raw/SignMessage")
+		} else if err := s.Sign(rnd, spy, append([]byte{}, c.RawProt...), c.Payload, c.External); err != nil {
 			stats.Class("refused/" + shortErr(err))
 			return nil
 		}
@@ -344,6 +396,8 @@ func TestC02_Raw(t *testing.T) {
 			c.RawProt = wrap(c.Prot)
 			c.SigMap, _ = gen.Headers(rt, o)
 			c.SigProt = wrap(c.SigMap)
+			c.ViaMessage = rapid.Bool().Draw(rt, "via-message")
+			c.MirrorMap = rapid.Bool().Draw(rt, "mirror-map")
 		}
 		stats.Eval()
 		judge(rt, "c02raw", c, checkC02Raw)
